@@ -13,6 +13,7 @@ Direct evaluation (3d): the executable statement of the theorems on rich's own o
 == Python oracle's expected cells, terminal left in its default state, no ESC when colour is disabled, no colour
 parameter under NO_COLOR, nothing of a control segment on a non-terminal.
 """
+import contextlib
 import io
 import itertools
 import os
@@ -119,6 +120,67 @@ class Consoles:
     def drop(self, cfg, route=0):
         """after an exception a console may be left inside a buffer / capture context: never reuse it"""
         self.cache.pop((cfg, route), None)
+
+
+class MutableConsole:
+    """ONE real Console whose configuration inputs change between writes: the configuration in force for a write is
+    the one the console has *at that moment* (target file and its isatty(), no_color, legacy_windows are re-read by
+    rich on every write; only the colour system is fixed at construction).
+    kind: "setter"  console.file = <new file> before each write
+          "auto"    like setter, colour system detected once at construction (color_system="auto", environment + first target)
+          "stdout"  Console(file=None) following sys.stdout, which is redirected (contextlib.redirect_stdout) per write
+          "stderr"  Console(file=None, stderr=True) following a redirected sys.stderr"""
+
+    def __init__(self, cs, kind, t0, serial=0):
+        from rich.console import Console
+
+        self.cs, self.kind = cs, kind
+        kw = dict(force_terminal=None, legacy_windows=False, width=WIDTH, markup=False, emoji=False, highlight=False)
+        if kind == "auto":
+            assert cs != 4
+            if cs == 0:
+                t0, env = 0, {"TERM": "xterm-256color", "COLORTERM": "truecolor"}   # not a terminal at construction: colour off for good
+            else:
+                t0, env = 1, dict(AUTO_ENV[cs][serial % len(AUTO_ENV[cs])])
+            self.con = Console(file=TtyIO(bool(t0)), color_system="auto", _environ=env, **kw)
+        elif kind == "setter":
+            self.con = Console(file=TtyIO(bool(t0)), color_system=CS_NAMES[cs], _environ={}, **kw)
+        elif kind == "stdout":
+            with contextlib.redirect_stdout(TtyIO(bool(t0))):
+                self.con = Console(file=None, color_system=CS_NAMES[cs], _environ={}, **kw)
+                self.con.is_terminal  # first use while the target is what it is now
+        else:
+            with contextlib.redirect_stderr(TtyIO(bool(t0))):
+                self.con = Console(file=None, stderr=True, color_system=CS_NAMES[cs], _environ={}, **kw)
+                self.con.is_terminal
+        self.t0 = t0
+
+    @contextlib.contextmanager
+    def target(self, t, nc, lw):
+        """point the console at a fresh file with isatty() == t and set the public switches"""
+        f = TtyIO(bool(t))
+        self.con.no_color = bool(nc)
+        self.con.legacy_windows = bool(lw)
+        if self.kind in ("setter", "auto"):
+            self.con.file = f
+            yield (self.cs, nc, t, lw)
+        elif self.kind == "stdout":
+            with contextlib.redirect_stdout(f):
+                yield (self.cs, nc, t, lw)
+        else:
+            with contextlib.redirect_stderr(f):
+                yield (self.cs, nc, t, lw)
+
+
+# public calls that put one control segment into the buffer: (name, call, codes, needs a capable terminal)
+API_CONTROLS = [
+    ("bell()", lambda c: c.bell(), "\x07", False),
+    ("clear()", lambda c: c.clear(), "\x1b[2J\x1b[H", False),
+    ("clear(home=False)", lambda c: c.clear(home=False), "\x1b[2J", False),
+    ("show_cursor(False)", lambda c: c.show_cursor(False), "\x1b[?25l", True),
+    ("show_cursor(True)", lambda c: c.show_cursor(True), "\x1b[?25h", True),
+    ("control('\\r\\x1b[1A\\x1b[2K')", lambda c: c.control("\r\x1b[1A\x1b[2K"), "\r\x1b[1A\x1b[2K", False),
+]
 
 
 def err_name(e):
@@ -232,7 +294,7 @@ class History:
             cells.extend((ch, look) for ch in text)
         return cells
 
-    def write(self, cfg, segs, mode, route=0, console=None):
+    def write(self, cfg, segs, mode, route=0, console=None, action=None, tag=""):
         """`segs` = [(text, handle|None, control)] written through the console of configuration `cfg`."""
         from rich.segment import Segment
 
@@ -247,7 +309,11 @@ class History:
         if mode == 0 and rb is None:
             mode = 1
         try:
-            if mode == 0:
+            if action is not None:   # a public call whose buffer content is `segs`
+                mode = 4
+                action[1](console)
+                out = console.file.getvalue()
+            elif mode == 0:
                 out = rb(real)
             elif mode == 1:
                 console.print(SegsRenderable(real), crop=False)
@@ -271,7 +337,8 @@ class History:
         ctx.note("mode%d" % mode)
         ctx.note("route%d" % route)
         self.ops.append("R@%s@%s" % (A.enc_cfg(*cfg), A.enc_segs(segs)))
-        self.readable.append("console(cs=%s,no_color=%d,terminal=%d,legacy=%d).write(%s)" % (CS_NAMES[cs], nc, t, lw, ", ".join(
+        self.readable.append("console%s(cs=%s,no_color=%d,terminal=%d,legacy=%d).%s" % (tag,
+            CS_NAMES[cs], nc, t, lw, action[0] if action is not None else "write(%s)" % ", ".join(
             ("ctl" if c else "seg") + "(%r,%s)" % (tx, "None" if h is None else "s%d" % h) for tx, h, c in segs)))
         texts_clean = all(A.no_esc(tx) for tx, _, _ in segs)
         exp = self.expected_cells(cfg, segs)
@@ -288,7 +355,7 @@ class History:
         if exp is not None and texts_clean:
             ok = it.cells == exp and it.foreign == 0
             finding = None
-            if not ok:
+            if it.cells != exp:
                 if it.cells == self.expected_cells(cfg, segs, stale=True):
                     finding = SLUG_STALE
                 elif it.cells == self.expected_cells(cfg, segs, ctl=True):
@@ -612,6 +679,8 @@ def run(ctx):
                     con.file = TtyIO(bool(t))
                     h.write((cs if t else 0, nc, t, 0), [("x", st, False), ("\x1b[2J", None, True)], mode=1, route=1, console=con)
                     h.finish()
+    # ---- M. one console object, changing target / NO_COLOR / legacy_windows between writes
+    _mutable_console_histories(ctx, consoles)
     # ---- E6. through the public API only: Style.parse (lru_cache shared by every console) + console.print(Text)
     _public_api_histories(ctx, consoles)
     # ---- E7. the error branches: ill-formed Color objects
@@ -687,6 +756,66 @@ def run(ctx):
         "then %d seeded random histories from the full product (13 tri-state attributes x 6 colour kinds x fg/bg x link x construction route). "
         "distinct = distinct (view, history) requests" % (len(reps) - 1, n_hist)
     )
+
+
+def api_write(h, mc, cfg, k, tag):
+    """one of the public calls that emit control codes, on a mutable console in its current state"""
+    name, call, codes, needs_capable = API_CONTROLS[k % len(API_CONTROLS)]
+    cs, nc, t, lw = cfg
+    segs = [] if needs_capable and (not t or lw) else [(codes, None, True)]
+    h.write(cfg, segs, 4, console=mc.con, action=(name, call), tag=tag)
+
+
+def _mutable_console_histories(ctx, consoles):
+    """Histories on ONE console object whose target (and its isatty()), no_color and legacy_windows change between
+    writes: whatever rich reads per write must not have been remembered from an earlier write."""
+    from rich.style import Style
+
+    rng = ctx.rng
+    t_seqs = [(1, 0, 1, 0), (0, 1, 0, 1), (1, 1, 0, 0, 1)]
+    serial = 0
+    for kind in ("setter", "auto", "stdout", "stderr"):
+        for cs in range(5):
+            if kind == "auto" and cs == 4:
+                continue
+            for ts in t_seqs:
+                serial += 1
+                h = History(ctx, consoles, "M-mutable-" + kind)
+                st = h.new(Style(bold=True, color="#ff8800", link="http://m"))
+                nul = h.new(Style.null(), "null")
+                mc = MutableConsole(cs, kind, ts[0], serial)
+                tag = "#%s%d" % (kind, serial)
+                for k, t in enumerate(ts):
+                    nc, lw = (k + serial) % 2, (k // 2 + serial) % 2
+                    with mc.target(t, nc, lw) as cfg:
+                        h.write(cfg, [("a", st, False), ("ctl", st, True), ("b", None, False), ("\r", nul, True)], mode=(k + serial) % 3, console=mc.con, tag=tag)
+                    with mc.target(t, nc, lw) as cfg:
+                        h.write(cfg, [("x", st, False), ("\x1b[2K", None, True)], mode=1, console=mc.con, tag=tag)
+                    for j in range(2):
+                        with mc.target(t, nc, lw) as cfg:
+                            api_write(h, mc, cfg, serial + 2 * k + j, tag)
+                    # the switches alone, target unchanged in kind
+                    with mc.target(t, 1 - nc, 1 - lw) as cfg:
+                        h.write(cfg, [("y", st, False), ("\x07", None, True)], mode=2, console=mc.con, tag=tag)
+                h.finish()
+    for _ in range(40 if ctx.quick else 1500):
+        serial += 1
+        kind = rng.choice(["setter", "setter", "auto", "stdout", "stderr"])
+        cs = rng.randrange(4 if kind == "auto" else 5)
+        h = History(ctx, consoles, "M-mutable-random")
+        for _ in range(rng.randint(1, 3)):
+            st, how = rand_style(rng)
+            h.new(st, how)
+        mc = MutableConsole(cs, kind, rng.randrange(2), serial)
+        tag = "#%s%d" % (kind, serial)
+        for _ in range(rng.randint(2, 8)):
+            with mc.target(rng.randrange(2), int(rng.random() < 0.3), int(rng.random() < 0.3)) as cfg:
+                if rng.random() < 0.3:
+                    api_write(h, mc, cfg, rng.randrange(len(API_CONTROLS)), tag)
+                else:
+                    h.write(cfg, rand_segs(rng, len(h.objs), clean_only=rng.random() < 0.6), rng.randrange(3), console=mc.con, tag=tag)
+        h.finish()
+    ctx.flush()
 
 
 def _interpreter_cross_check(ctx):
